@@ -485,11 +485,16 @@ def check(ctx):
         for r in S.regs:
             call = calls_of(g, r, S._is_reg)[0]
             cons = ctx.construct(q, call)
-            ctx.check(call.func.attr == "append" and S.is_inner(call.func.value.value), "chain/registration-target", cons,
-                      "the continuation is not appended to the callbacks of the Deferred the callback returned")
-            conts = [x for a in call.args for x in ast.walk(a) if isinstance(x, ast.Call) and isinstance(x.func, ast.Attribute) and x.func.attr == "_continuation"]
-            ctx.check(all(is_name(x.func.value, cur) for x in conts) and len(call.args) == 1 and call.args[0] in conts, "chain/registration-target",
-                      cons + " (whose continuation)", "the registered continuation is not the current Deferred's own")
+            if S.reg_is_api(call):
+                # waiting arranged with <inner>.addBoth(<cur>._resumer): same results and per-Deferred order (re-entrancy is C02's clause)
+                ctx.check(S.is_inner(call.func.value), "chain/registration-target", cons,
+                          "the continuation is not registered on the Deferred the callback returned")
+            else:
+                ctx.check(call.func.attr == "append" and S.is_inner(call.func.value.value), "chain/registration-target", cons,
+                          "the continuation is not appended to the callbacks of the Deferred the callback returned")
+                conts = [x for a in call.args for x in ast.walk(a) if isinstance(x, ast.Call) and isinstance(x.func, ast.Attribute) and x.func.attr == "_continuation"]
+                ctx.check(all(is_name(x.func.value, cur) for x in conts) and len(call.args) == 1 and call.args[0] in conts, "chain/registration-target",
+                          cons + " (whose continuation)", "the registered continuation is not the current Deferred's own")
             wit = avoiding_path(g, S.callouts, [r], pauses)
             ctx.check(bool(pauses) and wit is None, "chain/paused-while-waiting", cons,
                       "the current Deferred waits for the returned Deferred without being paused: the _CONTINUE hand-over would drive "
@@ -858,4 +863,11 @@ SILENT = [
                  (D, "                    chain.append(chainee)\n                    # Delay cleaning this Deferred and popping it from the chain\n                    # until after we've dealt with chainee.\n                    finished = False\n                    break\n", "                    parents.append(current)\n                    current = chainee\n                    if current.paused:\n                        return\n                    current._chainedTo = None\n                    continue\n"),
                  (D, "            if finished:\n                # As much of the callback chain", "            if True:\n                # As much of the callback chain"),
                  (D, "                chain.pop()\n", "                if not parents:\n                    return\n                current = parents.pop()\n")]),
+    Silent("paused-returned-deferred-waited-for-through-addBoth", D,
+           "                            or type(resultResult) in _DEFERRED_SUBCLASSES\n                            or currentResult.paused\n                        ):\n",
+           "                            or type(resultResult) in _DEFERRED_SUBCLASSES\n                        ):\n",
+           more=[(D, "                        else:\n                            # Yep, it did.  Steal it.\n",
+                  "                        elif currentResult.paused:\n                            current.pause()\n                            current._chainedTo = currentResult\n                            currentResult.addBoth(current._takeOver)\n                            break\n                        else:\n                            # Yep, it did.  Steal it.\n"),
+                 (D, "    def _runCallbacks(self) -> None:\n        \"\"\"\n        Run the chain of callbacks once a result is available.\n",
+                  "    def _takeOver(self, outcome):\n        self.result = outcome\n        self.unpause()\n\n    def _runCallbacks(self) -> None:\n        \"\"\"\n        Run the chain of callbacks once a result is available.\n")]),
 ]
